@@ -108,8 +108,9 @@ class TorchOps(Ops):
         self.note_value_use(a, node)
         self.note_value_use(b, node)
         self.ev("op", node, op="matmul", left=a.short(), right=b.short(), left_origin=sorted(a.origin), right_origin=sorted(b.origin),
-                left_raw=a.alias and a.axes == ("R", "C") and a.origin == frozenset(["matrix"]),
-                right_raw=b.alias and b.axes == ("R", "C") and b.origin == frozenset(["matrix"]))
+                left_raw=a.alias and a.axes in (("R", "C"), ("C", "R")) and a.origin == frozenset(["matrix"]),
+                right_raw=b.alias and b.axes in (("R", "C"), ("C", "R")) and b.origin == frozenset(["matrix"]),
+                left_axes=list(a.axes), right_axes=list(b.axes))
         if a.kind == "cvx" or b.kind == "cvx":
             kind = "cvx"
         elif {a.kind, b.kind} == {"ndarray", "tensor"}:
@@ -224,7 +225,7 @@ class TorchOps(Ops):
                 pos += len(out.axes) - before + 1
         return out.but(alias=tv.alias)
 
-    def slice_axis(self, tv: TV, axis: int, sl, node) -> TV:
+    def slice_axis(self, tv: TV, axis: int, sl, node, tag_it=True) -> TV:
         _, lo, hi, step = sl
         if lo is None and hi is None and step is None:
             return tv
@@ -240,8 +241,12 @@ class TorchOps(Ops):
                         self.clear(f, "slice bound is not invariant", node)
         new_tag = "K" if tag in ("R", "C") else tag
         axes = tv.axes[:axis] + (new_tag,) + tv.axes[axis + 1:]
-        self.ev("slice", node, axis=tag, lo=repr(lo), hi=repr(hi))
-        return tv.but(axes=axes, span=tv.span and tag != "C", **fl)
+        out = tv.but(axes=axes, span=tv.span and tag != "C", **fl)
+        if not tag_it:
+            return out
+        return self.tag(out, "slice", node, axis=tag, axis_pos=axis, lo_poly=self.poly_of(lo), hi_poly=self.poly_of(hi),
+                        lo_given=lo is not None, hi_given=hi is not None and not (isinstance(hi, Const) and hi.v == "len"),
+                        step=repr(step), in_origin=sorted(tv.origin))
 
     def list_subscript(self, base: ListV, idx, node):
         if idx[0] == "index":
